@@ -38,9 +38,9 @@ PROP = dict(
             job("chainntnfs", "^TestVerifC14MachineBolt$", ["TestVerifC14MachineBolt"], 60, shards=4),
         ],
         thorough=[
-            job("chainntnfs", "^TestVerifC14Machine$", ["TestVerifC14Machine"], 60000, shards=16, timeout=1500,
+            job("chainntnfs", "^TestVerifC14Machine$", ["TestVerifC14Machine"], 25000, shards=16, timeout=1500,
                 env=dict(VERIF_C14_LEN=70)),
-            job("chainntnfs", "^TestVerifC14MachineBolt$", ["TestVerifC14MachineBolt"], 600, shards=8, timeout=1500,
+            job("chainntnfs", "^TestVerifC14MachineBolt$", ["TestVerifC14MachineBolt"], 400, shards=8, timeout=1500,
                 env=dict(VERIF_C14_LEN_BOLT=45)),
         ],
     ),
